@@ -62,6 +62,10 @@ class Section(dict):
                 start = f'{pre}<{self.type} {self.name}>'
             else:
                 start = f'{pre}<{self.type}>'
+            if start.endswith('/>'):
+                # a name or type ending in '/' must not read back as the
+                # self-closing form
+                start = start[:-1] + ' >'
             result.append(start)
             pre += '  '
 
